@@ -142,7 +142,7 @@ def _alternatives(ant):
     return alts
 
 
-def split_goal(goal, hyps=None, out=None, depth=0, cap=24):
+def split_goal(goal, hyps=None, out=None, depth=0, cap=72):
     """(sound) decomposition of a goal into sub-goals whose conjunction is the goal: universally quantified goals
     are skolemised (their pattern terms are kept visible to the e-matcher through a `Trig` atom), conjunctions are
     proved conjunct by conjunct, disjunctive guards case by case.  -> [(extra hypotheses, sub-goal)]"""
@@ -170,30 +170,49 @@ def split_goal(goal, hyps=None, out=None, depth=0, cap=24):
     return out
 
 
+def _prove_parts(pc, parts, part_ms, total_s):
+    t0 = time.time()
+    for hy, g in parts:
+        r = prove(pc + hy, g, use_cvc5=False, timeout_ms=part_ms, split=False)
+        if r.status != "proved" or time.time() - t0 > total_s:
+            return False
+    return True
+
+
 def prove(pc, goal, use_cvc5=True, timeout_ms=None, split=True):
     """Is `goal` a consequence of the path condition `pc`?"""
     t0 = time.time()
+    parts = []
     if split and (z3.is_quantifier(goal) or z3.is_and(goal) or z3.is_implies(goal)):
-        # first try the goal piece by piece (each piece small and with its trigger terms in sight); only if a piece
-        # stays undecided is the goal tried as a whole
+        # first try the goal piece by piece (each piece small and with its trigger terms in sight), quickly; if a
+        # piece stays undecided the goal is tried as a whole, and only then piece by piece with the full budget
+        # (two routes: quantifier instantiation is brittle, one of them getting lost must not cost the verdict)
         try:
             parts = split_goal(goal)
         except _TooMany:
             parts = []
         if len(parts) > 1:
             budget = (timeout_ms or Z3_TIMEOUT_MS)
-            ok = True
-            for hy, g in parts:
-                r = prove(pc + hy, g, use_cvc5=False, timeout_ms=max(2500, (2 * budget) // 3), split=False)
-                if r.status != "proved":
-                    ok = False
-                    break
-                if time.time() - t0 > 5 * budget / 1000:
-                    ok = False
-                    break
-            if ok:
+            if _prove_parts(pc, parts, min(1500, budget), 2 * budget / 1000):
                 STATS["split"] = STATS.get("split", 0) + 1
                 return Result("proved", "z3", time.time() - t0)
+            r = prove(pc, goal, use_cvc5=False, timeout_ms=timeout_ms, split=False)
+            if r.status != "unknown":
+                return r
+            if _prove_parts(pc, parts, max(2500, (2 * budget) // 3), 5 * budget / 1000):
+                STATS["split"] = STATS.get("split", 0) + 1
+                return Result("proved", "z3", time.time() - t0)
+            if use_cvc5:
+                try:
+                    ans = cvc5_check(to_smt2(pc, z3.Not(goal)))
+                except Exception as e:  # pragma: no cover
+                    ans = "unknown"
+                    r.reason += f"; cvc5 error {e}"
+                if ans == "unsat":
+                    return Result("proved", "cvc5", time.time() - t0)
+                if ans == "sat":
+                    return Result("refuted", "cvc5", time.time() - t0, None, "cvc5 sat (no model decoded)")
+            return Result("unknown", "z3+cvc5" if use_cvc5 else "z3", time.time() - t0, None, r.reason)
     # syntactic shortcut: every conjunct of the goal is literally one of the hypotheses (an invariant
     # that a frame leaves untouched is the *same* term thanks to deterministic bound names)
     have = set()
